@@ -590,8 +590,10 @@ pub fn u_size(family: Family, field_lens: &[usize], targets: &[usize]) -> Vec<As
         out.push(Ast::Connect { level, clean: true, keep_alive: 1, props: vec![], client_id: s.clone(), will: None, username: None, password: None });
         out.push(Ast::Connect { level, clean: true, keep_alive: 1, props: vec![], client_id: "c".into(), will: Some(Will { qos: 1, retain: false, props: vec![], topic: s.clone(), payload: b.clone() }), username: Some(s2.clone()), password: Some(b.clone()) });
         out.push(Ast::Publish { dup: false, qos: 1, retain: false, topic: s.clone(), pid: Some(7), props: vec![], payload: b.clone() });
-        out.push(Ast::Subscribe { pid: 7, props: vec![], topics: vec![(s.clone(), 1), (format!("{}/#", rep('a', n.saturating_sub(2).max(1))), 0)] });
-        out.push(Ast::Unsubscribe { pid: 7, props: vec![], topics: vec![s.clone()] });
+        if n > 0 {
+            out.push(Ast::Subscribe { pid: 7, props: vec![], topics: vec![(s.clone(), 1), (format!("{}/#", rep('a', n.saturating_sub(2).max(1))), 0)] });
+            out.push(Ast::Unsubscribe { pid: 7, props: vec![], topics: vec![s.clone()] });
+        }
         if n + 9 <= 65535 {
             let sh = format!("$share/g/{}", s);
             if n > 0 {
